@@ -346,7 +346,7 @@ func init() {
 			Assumptions: []string{"sync.Pool returns either a value previously Put or the result of New", "user handlers do not retain the *Context after the request (documented contract of pooled contexts)"},
 		},
 		Rules: []ruleFn{
-			{"C10-RESET", ruleC10Reset},
+			{"C10-RESET", ruleC10Reset}, {"C10-FRESH", ruleC10Fresh},
 			{"C10-PRISTINE", ruleC10Reslice},
 			{"C10-INIT", ruleC10HandleContext},
 			{"C03-POOL", ruleC03Pool},
@@ -465,4 +465,96 @@ func preDispatchAssign(w *World, f *ssa.Function, cv ssa.Value, depth int) (map[
 		}
 	})
 	return result, handOver
+}
+
+// C10-FRESH — what the matcher hands to a request beyond the route is the request's own: the
+// allowed-method list that QuickMatch returns (the dispatcher stores it in the context, the default
+// 405 handler sorts it in place) is a fresh slice on every path of findAllowedMethods — never a
+// list that lives in the router, a route or the cache.
+func ruleC10Fresh(r *Run) {
+	w := r.W
+	rule := "C10-FRESH"
+	r.Floor(rule, 1)
+	fam := w.Fn("rux", "Router.findAllowedMethods")
+	e := &seqEngine{w}
+	n := 0
+	eachInstr(fam, func(in ssa.Instruction) {
+		ret, ok := in.(*ssa.Return)
+		if !ok || len(ret.Results) != 1 {
+			return
+		}
+		n++
+		alts, why := e.at(fam, in, ret.Results[0])
+		construct := fmt.Sprintf("(*Router).findAllowedMethods:result#%d", n)
+		// provenance over every alternative of the value (including those that come round a loop, which the
+		// acyclic path enumeration of the sequence engine does not reach)
+		{
+			// the sequence engine cannot enumerate the value (it is built in a loop): fall back to provenance —
+			// no alternative of the returned slice is a load from router / route / cache memory
+			shared := ""
+			for _, lf := range valueLeaves(ret.Results[0]) {
+				if flowsFromDeepNoAppendArgs(lf, func(x ssa.Value) bool {
+					ld, ok := x.(*ssa.UnOp)
+					if !ok || ld.Op != token.MUL {
+						return false
+					}
+					_, isFA := ld.X.(*ssa.FieldAddr)
+					_, isSl := ld.Type().Underlying().(*types.Slice)
+					return isFA && isSl
+				}) {
+					shared = shortCanon(canon(lf))
+				}
+			}
+			r.Check(rule, construct+" provenance", w.InstrPos(in), shared == "", map[bool]string{true: "the returned list is built by append from nil in this call (no alternative is a slice stored in a struct)", false: "the list handed to the request is (an extension of) a slice that lives in shared memory (" + shared + "): requests that edit it — the default 405 handler sorts it — see each other's state"}[shared == ""])
+		}
+		if why != "" {
+			return
+		}
+		okF := true
+		detail := "fresh on every path"
+		for _, alt := range alts {
+			if alt.Val.Unknown != "" {
+				okF, detail = false, "cannot evaluate: "+alt.Val.Unknown
+				break
+			}
+			if len(alt.Val.Atoms) > 0 && !alt.Val.Fresh {
+				okF, detail = false, "the returned list aliases "+alt.Val.AliasOf
+			}
+		}
+		r.Check(rule, construct, w.InstrPos(in), okF, detail)
+	})
+}
+
+// flowsFromDeepNoAppendArgs: like flowsFromDeep, but through append only the base slice (first
+// argument) is followed: appending elements of a shared list to a fresh one copies them.
+func flowsFromDeepNoAppendArgs(v ssa.Value, src func(ssa.Value) bool) bool {
+	seen := map[ssa.Value]bool{}
+	var walk func(v ssa.Value, d int) bool
+	walk = func(v ssa.Value, d int) bool {
+		if v == nil || seen[v] || d > 60 {
+			return false
+		}
+		seen[v] = true
+		if src(v) {
+			return true
+		}
+		switch x := v.(type) {
+		case *ssa.Phi:
+			for _, e := range x.Edges {
+				if walk(e, d+1) {
+					return true
+				}
+			}
+		case *ssa.Call:
+			if isBuiltin(x, "append") {
+				return walk(x.Call.Args[0], d+1)
+			}
+		case *ssa.Slice:
+			return walk(x.X, d+1)
+		case *ssa.ChangeType:
+			return walk(x.X, d+1)
+		}
+		return false
+	}
+	return walk(v, 0)
 }
